@@ -10,9 +10,18 @@ class MirParseError(Exception):
     pass
 
 
+def hash_lines(header, lines):
+    import hashlib
+    h = hashlib.blake2b(digest_size=12)
+    h.update(header.encode())
+    for l in lines:
+        h.update(l.encode())
+    return h.hexdigest()
+
+
 class Func:
     __slots__ = ('name', 'header', 'lines', 'blocks', 'nargs', 'types', 'nlocals', 'parsed', 'crate',
-                 'impl_at', 'kind', 'compiled', 'span_file')
+                 'impl_at', 'kind', 'compiled', 'span_file', 'src_hash')
 
     def __init__(self, name, header, lines, crate, kind='fn'):
         self.name = name
@@ -26,6 +35,7 @@ class Func:
         self.nlocals = 0
         self.parsed = False
         self.compiled = None
+        self.src_hash = hash_lines(header, lines)
         m = re.search(r'<impl at ([^:]+):(\d+):(\d+): (\d+):(\d+)>', name)
         self.impl_at = (m.group(1), int(m.group(2)), int(m.group(3)), int(m.group(4)), int(m.group(5))) if m else None
 
@@ -162,8 +172,11 @@ def _parse_place(s):
                 if mm:
                     l, p = parse_place(inner[:i])
                     ty = mm.group(2)
-                    if ty.startswith(('std::ptr::Unique<', 'std::ptr::NonNull<')):
-                        return (l, p)          # Box internals: transparent
+                    if ty.startswith(('std::ptr::Unique<', 'std::ptr::NonNull<', 'std::mem::ManuallyDrop<', 'std::mem::MaybeDangling<')):
+                        return (l, p)          # Box / MaybeUninit internals: transparent
+                    pre = inner[:i]
+                    if pre.startswith('(') and re.search(r': std::mem::(ManuallyDrop|MaybeDangling|MaybeUninit)<', pre) and _outer_type(pre).startswith(('std::mem::ManuallyDrop<', 'std::mem::MaybeDangling<')):
+                        return (l, p)          # field of a transparent wrapper
                     return (l, p + (('field', int(mm.group(1)), ty),))
                 break
         m = re.fullmatch(r'(.+) as (\w+)', inner, re.S)
@@ -171,6 +184,22 @@ def _parse_place(s):
             l, p = parse_place(m.group(1))
             return (l, p + (('downcast', m.group(2)),))
     raise MirParseError('place? ' + s)
+
+
+def _outer_type(place):
+    """declared type of a parenthesised field place `(<p>.N: T)` -> T"""
+    inner = place[1:-1]
+    depth = 0
+    for i, c in enumerate(inner):
+        if c in '([':
+            depth += 1
+        elif c in ')]':
+            depth -= 1
+        elif c == '.' and depth == 0:
+            mm = re.match(r'\.(\d+): (.*)$', inner[i:], re.S)
+            if mm:
+                return mm.group(2)
+    return ''
 
 
 # ---------------------------------------------------------------- statements
@@ -330,6 +359,14 @@ def load_mir(path, crate, funcs=None, consts=None):
             kind = 'fn'
         elif line.startswith('const ') or line.startswith('static '):
             kind = 'const'
+        if kind == 'const' and line.rstrip().endswith(';'):
+            m = re.match(r'.* = (.+);$', line.rstrip())
+            if m:
+                nm = _const_name(line)
+                f = Func(nm, line, ['    bb0: {', '        _0 = %s;' % m.group(1), '        return;', '    }'], crate, 'const')
+                consts.setdefault(nm, f)
+            i += 1
+            continue
         if kind:
             # header may span several lines until one ends with '{'
             hdr = line
@@ -348,13 +385,25 @@ def load_mir(path, crate, funcs=None, consts=None):
                 f = Func(name, hdr, _join_multiline(body), crate, 'fn')
                 funcs.setdefault(name, f)
             else:
-                m = re.match(r'(?:const|static(?: mut)?) (.+?): ', hdr)
-                name = m.group(1) if m else hdr
+                name = _const_name(hdr)
                 f = Func(name, hdr, _join_multiline(body), crate, 'const')
                 consts.setdefault(name, f)
             i = j
         i += 1
     return funcs, consts
+
+
+def _const_name(hdr):
+    s = re.sub(r'^(const|static(?: mut)?) ', '', hdr)
+    ang = 0
+    for k, c in enumerate(s):
+        if c == '<':
+            ang += 1
+        elif c == '>' and s[k - 1] != '-':
+            ang -= 1
+        elif c == ':' and ang == 0 and s[k + 1:k + 2] == ' ':
+            return s[:k]
+    return s
 
 
 def _fn_name(hdr):
